@@ -637,7 +637,9 @@ HXPread(accrec_t *access_rec, int32 length, void *data)
     /* adjust length if it falls off the end of the element */
     if ((length == 0) || (access_rec->posn + length > info->length))
         length = info->length - access_rec->posn;
-    else if (length < 0)
+
+    /* the position may have been moved past the end of the element */
+    if (length < 0)
         HGOTO_ERROR(DFE_RANGE, FAIL);
 
     /* if the file is open but external directory is changed (by HXsetdir),
